@@ -419,6 +419,24 @@ class VC:
         cx.ghost["cut%d" % k] = new
         return new
 
+    def dtype_eq(self, arr, T, negate=False):
+        import numpy as _np
+        if isinstance(arr, _np.ndarray) and arr.dtype == object and T in (complex, float, _np.complex128, _np.float64):
+            def kind(v):
+                if isinstance(v, SNum):
+                    return "real"
+                if isinstance(v, (int, float, _np.integer, _np.floating)):
+                    return "real0" if v == 0 else "real"
+                return "cplx"
+            ks = {kind(v) for v in arr.flat}
+            is_c = "cplx" in ks
+            r = is_c if T in (complex, _np.complex128) else (not is_c)
+            if ks <= {"real0"}:
+                r = True
+        else:
+            r = arr.dtype == T
+        return (not r) if negate else r
+
     def contains(self, container, item, negate=False):
         if hasattr(container, "sym_contains"):
             r = container.sym_contains(item)
